@@ -274,6 +274,7 @@ struct Runtime {
   // The in-flight case is kept by pointer and only serialised if the process dies (sanitizer death
   // callback / fatal signal), so cheap properties do not pay a syscall per case.
   const Ctx* inflight = nullptr;
+  bool hangDump = false;         // the in-flight case is dumped by the watchdog, not by a crash
   unsigned long caseSerial = 0;  // watchdog: distinguishes successive cases living at one address
   void writeCurrent(const Ctx& c) { inflight = &c; ++caseSerial; }
   void dumpInflight() {
@@ -282,7 +283,7 @@ struct Runtime {
     inflight = nullptr;
     const int fd = ::open(path("current").append(".case").c_str(), O_CREAT | O_WRONLY | O_TRUNC, 0644);
     if (fd < 0) return;
-    std::string s = "property=" + property + "\nsub=" + currentSub + "\noracle=crash\nmsg=\ntape=";
+    std::string s = "property=" + property + "\nsub=" + currentSub + "\noracle=" + (hangDump ? "hang" : "crash") + "\nmsg=\ntape=";
     for (size_t i = 0; i < c.src.tape.size(); ++i) { if (i) s += ' '; s += std::to_string(c.src.tape[i]); }
     s += "\n--- case\n" + c.show.str() + "\n";
     if (::write(fd, s.data(), s.size()) < 0) {}
@@ -355,7 +356,7 @@ inline void onWatchdogTick(int) {
   static unsigned long lastSerial = 0; static int same = 0;
   Runtime* rt = activeRuntime();
   if (!rt || !rt->inflight) { same = 0; return; }
-  if (rt->caseSerial == lastSerial) { if (++same >= 4) { onDeath(); ::_exit(80); } }
+  if (rt->caseSerial == lastSerial) { if (++same >= 4) { rt->hangDump = true; onDeath(); rt->flush(true); ::_exit(80); } }
   else { lastSerial = rt->caseSerial; same = 0; }
 }
 inline void installDeathHooks(Runtime& rt) {
@@ -553,7 +554,8 @@ inline Verdict replayFile(const std::vector<Prop>& props, Runtime& rt, const std
   if (!readCase(path, c)) return fail("harness", "cannot read " + path);
   const Prop* p = findProp(props, c.sub);
   if (!p) return fail("harness", "unknown sub-property " + c.sub);
-  return runForked(p->fn, rt, c.tape, nullptr, nullptr, 120);
+  const char* lim = std::getenv("VERIF_REPLAY_CPU_S");
+  return runForked(p->fn, rt, c.tape, nullptr, nullptr, lim && atoi(lim) > 0 ? atoi(lim) : 120);
 }
 
 inline int main(int argc, char** argv, const std::string& propertyId, const std::vector<Prop>& props) {
